@@ -100,11 +100,18 @@ def tree(rng, depth):
         return leaf(rng)
     if rng.chance(0.5):
         n = rng.choice([0, 1, 2, 3, 4])
+        if rng.chance(0.02):
+            return ('a', [leaf(rng) for _ in range(rng.choice([33, 40, 70]))])    # past ARRAY_LIST_DEFAULT_SIZE
         xs = [tree(rng, depth - 1) for _ in range(n)]
         if xs and rng.chance(0.25):
             xs[-1] = ('n',)                      # arrays ending in null
         return ('a', xs)
     n = rng.choice([0, 1, 2, 3, 4])
+    if rng.chance(0.02):
+        # wide objects: past JSON_OBJECT_DEF_HASH_ENTRIES, so the table has been resized (leaf members only)
+        n = rng.choice([17, 24, 40])
+        keys = [b"m%d" % i for i in rng.sample(range(60), n)]
+        return ('o', [(k, leaf(rng)) for k in keys])
     keys = rng.sample(KEYS, n)
     return ('o', [(k, tree(rng, depth - 1) if rng.chance(0.85) else ('n',)) for k in keys])
 
